@@ -88,9 +88,11 @@ def identify(payload, off_hint=None):
         return -1, -1, False
     # short payload: needs the offset from the block option
     if off_hint is not None:
-        for cid in range(256):
-            if canon(cid, off_hint, n) == bytes(payload):
-                return cid, off_hint, True
+        cands = [cid for cid in range(256) if canon(cid, off_hint, n) == bytes(payload)]
+        if len(cands) == 1:
+            return cands[0], off_hint, True
+        if cands:
+            return -2, off_hint, True  # too short to tell which canonical string: consistent with several
     return -1, -1, False
 
 
